@@ -21,7 +21,6 @@ Conventions read from miasm and accepted: a node dominates itself; only nodes re
 the head has no immediate dominator (absent, or mapped to itself = Cooper's convention); a node with an empty
 frontier may be absent from the frontier map; a dominator tree of a single reachable node is empty.
 """
-import itertools
 from collections import Counter
 
 from mc.runner import violation
@@ -140,6 +139,8 @@ def o_walks(src, dst, succ_mult, caps):
         v = path[-1]
         if v == dst:
             out[tuple(path)] += mult
+            if caps[dst] == 1:
+                return
         for (w, k) in succ_mult[v]:
             if cnt[w] < caps[w]:
                 cnt[w] += 1
@@ -263,8 +264,9 @@ def call(f, *a):
         return False, type(e).__name__
 
 
-def check_graph(n, edges, paths_cc=(0, 1), stats=None, want=None):
-    """All comparisons on one graph. Returns the list of violations. `want`: only this algo (replay)."""
+def check_graph(n, edges, paths_cc=(0, 1), stats=None, want=None, nviol=None):
+    """All comparisons on one graph. Returns the list of violations. `want`: only this algo.
+    `nviol`: shared Counter {sig: occurrences}; past MAX_PER_SIG a violation is only counted, not formatted."""
     G_ = G(n, edges)
     g = G_.g
     succ, pred = G_.succ, G_.pred
@@ -275,6 +277,12 @@ def check_graph(n, edges, paths_cc=(0, 1), stats=None, want=None):
 
     def bad(algo, kind, skel, what, **kw):
         sig = "%s:%s%s" % (algo, kind, (":" + skel) if skel else "")
+        if nviol is not None:
+            nviol[sig] += 1
+            if nviol[sig] > MAX_PER_SIG:
+                return
+        if callable(what):
+            what = what()
         case = dict(basecase)
         case["sig"] = sig
         vs.append(violation(sig, "%s  [%s] %s" % (what, G_.desc(), " ".join("%s=%s" % i for i in sorted(kw.items()))), case))
@@ -432,7 +440,7 @@ def check_graph(n, edges, paths_cc=(0, 1), stats=None, want=None):
                             w = members(got ^ df[x])[0]
                             kind = "missing" if df[x] >> w & 1 else "extra"
                             wcls = "w=head" if w == head else "w=other"
-                            bad(algo, kind, wcls, "%s(%d)[%d] = %s, definition gives %s (full result %s)" % (
+                            bad(algo, kind, wcls, lambda: "%s(%d)[%d] = %s, definition gives %s (full result %s)" % (
                                 algo, head, x, fmt(got), fmt(df[x]),
                                 fmtmap(dict((k, tomask(v)) for k, v in r.items()))), arg=head)
 
@@ -627,10 +635,8 @@ def _shard(args):
     sample = None
     for code in range(lo, hi):
         edges = decode(fam, n, code, order)
-        for v in check_graph(n, edges, paths_cc, stats):
-            nviol[v["sig"]] += 1
-            if nviol[v["sig"]] <= MAX_PER_SIG:
-                kept.setdefault(v["sig"], []).append(v)
+        for v in check_graph(n, edges, paths_cc, stats, nviol=nviol):
+            kept.setdefault(v["sig"], []).append(v)
         stats["graphs"] += 1
         if sample is None and len(edges) >= n + 1:
             sample = {"family": fam, "n": n, "code": code, "order": order, "edges": [list(e) for e in edges]}
